@@ -1,6 +1,7 @@
 /- Driver for the symbol-table family (C09): same line protocol as harness/c09.cpp. -/
 import ElfioVerif.Driver.Common
 import ElfioVerif.Model.Symbols
+import ElfioVerif.Spec.Symbols
 namespace ElfioVerif.Drv.C09
 open ElfioVerif ElfioVerif.Drv ElfioVerif.Gen
 
@@ -31,6 +32,32 @@ def reloadSec (lazy_ : Bool) (s : SecBuf) (d : Bytes) : SecBuf :=
   let ss : BitVec 64 := BitVec.ofNat 64 (2 ^ 62)
   let b := if lazy_ then SecBuf.loadedLazy s.cls s.stype d ss else SecBuf.loadedEager s.cls s.stype d ss
   { b with entSize := s.entSize, link := s.link }
+
+/-- names of the current entries (index order), read through the model -/
+def currentNames (tb : SymTab) : List Bytes :=
+  match tb.symbolsNum with
+  | .error _ => []
+  | .ok n => (List.range n.toNat).map fun i =>
+      match tb.getSymbol (BitVec.ofNat 64 i) [] {} with
+      | .ok r => r.2.1
+      | .error _ => []
+
+/-- the section the ABI construction of Spec/Symbols.lean gives for the current table and the
+    parameters on a `sethash` line (`none`: the line carries no parameters) -/
+def specTable (tb : SymTab) (args : List String) : Option Bytes :=
+  match kv? args "nb" with
+  | none => none
+  | some _ =>
+    let names := currentNames tb
+    let nb := kvn args "nb" 1
+    if kvn args "type" SHT_HASH == SHT_HASH then
+      if names.isEmpty then some (Spec.buildSysvEmpty tb.cfg.enc nb)
+      else some (Spec.buildSysv tb.cfg.enc nb ((names.drop 1).map fun n => (Spec.sysvHash (SymTab.cName n)).toNat))
+    else
+      let so := kvn args "so" 1
+      let w := match tb.cfg.cls with | .c32 => 4 | .c64 => 8
+      some (Spec.buildGnu tb.cfg.enc w nb so (kvn args "bs" 1) (kvn args "sh" 0)
+        ((names.drop so).map fun n => (Spec.gnuHash (SymTab.cName n)).toNat))
 
 def step (st : Option St) (t : List String) : Option St × String :=
   match t with
@@ -87,8 +114,13 @@ def step (st : Option St) (t : List String) : Option St × String :=
         let h0 : SecBuf := match tb.hash with
           | some h => { h with stype := ty }
           | none => SecBuf.fresh tb.cfg.cls ty
+        -- the attached table is compared with the Lean-side ABI construction (ties the generator's
+        -- Python construction to `Spec.buildSysv` / `Spec.buildGnu`, about which the theorems speak)
+        let verdict := match specTable tb args with
+          | none => "ok"
+          | some b => if b == d then "ok" else "ok spec-table-differs"
         fin ((h0.setData (some d) (BitVec.ofNat 64 d.length)) >>= fun h =>
-             pure ({ s with tab := { tb with hash := some h } }, "ok"))
+             pure ({ s with tab := { tb with hash := some h } }, verdict))
       | "save", [] =>
         let sy := viewOf tb.sym
         let sr := (tb.str.map viewOf).getD []
